@@ -1486,6 +1486,72 @@ class ForallGuard:
                 return True
         return False
 
+    @staticmethod
+    def _accumulated(body, g, head, starts, chk, cacc, crej, exhausted):
+        """(accepting, rejecting) edges of the post-loop test of a bool flag that is `true` before the loop and cleared by every failing
+        iteration; empty sets when the body has no such flag."""
+        inloop = {x for x in g.reach(starts) if head in g.reach((x,))} | {head}
+        defs = {}
+        for b in body.blocks:
+            if b["cleanup"]:
+                continue
+            for st in b["stmts"]:
+                if len(st["d"]) == 1 and str(body.locals.get(str(st["d"][0]), "")) == "bool":
+                    defs.setdefault(st["d"][0], []).append((b["id"], st["rv"]))
+            t = b["term"]
+            if t["k"] == "call" and len(t.get("d") or []) == 1 and t["d"][0] in defs:
+                defs[t["d"][0]].append((b["id"], None))
+        # values of the check (positive polarity) for the `flag &= value` form
+        vals = set()
+        if isinstance(chk, FieldBoolGuard) and chk.want:
+            from flow import field_reads
+            vals = Taint(body).closure({d for d, r, p in field_reads(body, chk.field) if p[-1] == "." + chk.field})
+        elif isinstance(chk, CallGuard) and tuple(chk.steps) == ("true",):
+            vals = Taint(body).closure({b["term"]["d"][0] for b in body.blocks if b["term"]["k"] == "call" and not b["cleanup"] and callee_matches(b["term"], chk.pats)})
+        for A, ds in defs.items():
+            clears, ands, ok = set(), set(), True
+            has_true_before = False
+            for bid, rv in ds:
+                if rv is None:
+                    ok = False
+                    break
+                if rv["k"] == "use" and rv["a"][0] == "c" and rv["a"][1] in ("true", "false"):
+                    if rv["a"][1] == "true":
+                        if bid in inloop:
+                            ok = False
+                            break
+                        has_true_before = True
+                    elif bid in inloop:
+                        clears.add(bid)
+                    continue
+                if rv["k"] == "bin" and rv.get("op") == "BitAnd" and bid in inloop:
+                    la, lb = op_local(rv["a"]), op_local(rv["b"])
+                    other = lb if la == A else la if lb == A else None
+                    if other is not None and other in vals:
+                        ands.add(bid)
+                        continue
+                ok = False
+                break
+            if not ok or not has_true_before or not (clears or ands):
+                continue
+            if ands and not clears:
+                if head in g.reach(starts, avoid=ands):
+                    continue        # an iteration can come round without folding its verdict into the flag
+            else:
+                if not crej or head in g.reach(starts, cut=set(cacc) | set(crej), avoid=ands):
+                    continue        # an iteration can come round without the check having been decided
+                if any(head in g.reach((d,), avoid=clears) for _, d in crej if d in inloop or _ in inloop):
+                    continue        # a failing element does not clear the flag
+            tr2 = Tracker(body)
+            tr2.seed_bool(A, True)
+            tr2.run()
+            after = g.reach(tuple(d for _, d in exhausted))
+            a_acc = {(s_, d_) for s_, d_ in tr2.accept if s_ not in inloop and s_ in after}
+            a_rej = {(s_, d_) for s_, d_ in tr2.reject if s_ not in inloop and s_ in after}
+            if a_acc:
+                return a_acc, a_rej
+        return set(), set()
+
     def edges(self, body):
         F = body._facts
         prep(body)
@@ -1499,7 +1565,7 @@ class ForallGuard:
             if nb["cleanup"] or t["k"] != "call" or len(t["d"]) != 1:
                 continue
             gen = t["ngen"] or ""
-            if gen.endswith("iterator::Iterator::next") and cn:
+            if gen.endswith("iterator::Iterator::next"):
                 if not self._source_ok(F, body, op_local(t["args"][0])):
                     continue
                 tr = Tracker(body)
@@ -1508,10 +1574,18 @@ class ForallGuard:
                 if not tr.accept or not tr.reject:
                     continue
                 starts = tuple(d for _, d in tr.reject)
-                if nb["id"] in g.reach(starts, cut=cacc):
-                    continue  # an iteration can come round without the check having accepted
-                if any(nb["id"] in g.reach((d,)) for _, d in crej):
-                    continue  # the loop goes on after a failed check
+                if nb["id"] in g.reach(starts, cut=cacc) or any(nb["id"] in g.reach((d,)) for _, d in crej):
+                    # an iteration can come round without the check having accepted, or the loop goes on after a failed check: the
+                    # remaining accepted form is (D) the accumulated verdict — `let mut ok = true; for x in xs { if !check(x) { ok = false }
+                    # / ok &= check(x) } if !ok { refuse }`: every iteration decides the check, a failing one clears the flag before the
+                    # next element, and the accepting edges are those of the test of the flag behind the exhausted loop
+                    a_acc, a_rej = self._accumulated(body, g, nb["id"], starts, chk, cacc, crej, tr.accept)
+                    if a_acc:
+                        n += 1
+                        acc |= a_acc
+                        rej |= a_rej
+                        self.forms.append("accumulated")
+                    continue
                 n += 1
                 acc |= tr.accept
                 rej |= crej
